@@ -248,6 +248,7 @@ type c15scen struct {
 	installs  int
 	g1, g2    int  // number of Gets by the two getter threads on u1
 	racingNew bool // a second NewUpdater racing the installs
+	failNew   bool // a further NewUpdater on the same secret whose builder fails (it must not disturb the others)
 }
 
 func (c c15scen) harness() func() *sched.Harness {
@@ -332,6 +333,18 @@ func (c c15scen) harness() func() *sched.Harness {
 				}
 				if c.g2 > 0 {
 					getter("g2", c.g2)
+				}
+				if c.failNew {
+					x.Go("failer", func() {
+						defer x.ReportPanic()
+						u, err := setec.NewUpdater(context.Background(), st, "d", func([]byte) (*built, error) {
+							sched.Seam("builder(failing)")
+							return nil, errors.New("this builder always fails")
+						})
+						if err == nil || u != nil {
+							x.Fail("C15/newupdater-failing-builder: NewUpdater with a failing builder returned (%v, %v)", u, err)
+						}
+					})
 				}
 				if c.racingNew {
 					x.Go("newer", func() {
@@ -455,6 +468,7 @@ func checkC15(t *testing.T, env *report.Env, rep *report.Report) {
 		{name: "2 installs || NewUpdater racing || g1(1 Get)", installs: 2, g1: 1, racingNew: true},
 		{name: "0 installs || g1(2 Gets) || g2(2 Gets)", installs: 0, g1: 2, g2: 2},
 		{name: "1 install || NewUpdater racing", installs: 1, racingNew: true},
+		{name: "1 install || NewUpdater racing || NewUpdater with a failing builder || g1(1 Get)", installs: 1, g1: 1, racingNew: true, failNew: true},
 	}
 	var list []hx.Scenario
 	for _, c := range scs {
